@@ -188,8 +188,12 @@ func (w *worker[T, JobType]) releaseWaiters(processing uint32) {
 
 	// Only release waiters if worker is paused or if running with an empty queue
 	if w.IsPaused() || (w.IsRunning() && w.queues.Len() == 0) {
-		// Broadcast to all waiters to signal they can continue
+		// Broadcast to all waiters to signal they can continue. The waiters' lock is taken so that a waiter
+		// which has evaluated its condition but is not parked yet (it holds the lock until Wait releases it)
+		// cannot miss the broadcast and sleep forever
+		w.mx.Lock()
 		w.waiters.Broadcast()
+		w.mx.Unlock()
 	}
 }
 
